@@ -7,6 +7,7 @@ package genbank
 // verif:bound C02 location trees: leaves = every span a..b and single base over a parent of 4 (quick) / 6 (thorough) bases, with every combination of partial markers; complement of any leaf; join with 2..3 (quick) / 2..4 (thorough) operands drawn from a reduced operand set (8 leaves and their complements), complement(join(..)), join containing complement(join(..)), join nested inside join; at most 3 operators, nesting depth 3
 // verif:bound C02 parent bases symbolic over the 15 IUPAC codes in lower case (as GenBank writes them): one path decides a location tree for every parent sequence
 // verif:bound C02 record-level clause: joins of 2..6 operands (optionally complemented) written on 1..4 lines of a feature table, read with Parse over a 12-base symbolic parent
+// verif:bound C02 flag-less clause: 1..3 sub-locations without the Join flag at the root or as an operand of a join
 // verif:bound C02 outside the claim: parents longer than 6 bases (coordinates with several digits are covered by translator-validation vectors only), joins with more than 4 operands, nesting depth 4
 // verif:assume C02 the location tree is enumerated (forked); text -> structure is executed concretely per tree, the solver decides the base-level clauses for all parents
 
@@ -384,6 +385,11 @@ func Harness_C02_SubLocationsWithoutJoinFlag() {
 		}
 		want += piece
 		loc.SubLocations = append(loc.SubLocations, sub)
+	}
+	if vChoice(2) == 1 {
+		// the flag-less node one level down: an operand of a join
+		loc = poly.Location{Join: true, SubLocations: []poly.Location{{Start: 0, End: 1}, loc}}
+		want = parent[0:1] + want
 	}
 	var seq poly.Sequence
 	seq.Sequence = parent
